@@ -150,6 +150,49 @@ def validate_witness(P, e, site):
         # a dominating path fact (rendered) must still be present
         rendered = {census.norm_text(site.tymap, " ".join(map(str, f[1:]))) for f in site.facts}
         return None if census.norm_text(site.tymap, w["fact"]) in rendered else "dominating guard `%s` is gone (facts: %s)" % (w["fact"], sorted(rendered)[:6])
+    if kind == "set_once":
+        # a guard compares against a remembered first value: the memo (a local Option) is written only while it is still None
+        # (assignment in the None branch of `if let Some(x) = memo`, or get_or_insert*); anything that overwrites a present value
+        # (replace / insert / take / a plain assignment elsewhere) makes the guard compare against a moving value
+        b = P.fn(w["fn"])
+        if b is None:
+            return "function %s is gone" % w["fn"]
+        memos = {}
+        for y in ir.walk_nodes(b["body"]):
+            if y.get("k") == "let" and y["pat"].get("k") == "bind" and (y["pat"].get("t") or "").replace("std::option::", "").startswith("Option<") and w["type"] in (y["pat"].get("t") or ""):
+                memos[y["pat"]["hid"]] = y["pat"]["name"]
+        if not memos:
+            return "no %s memo in %s" % (w["type"], w["fn"])
+        okm = []
+        for h in memos:
+            bad = []
+            # branches where the memo is known to be None
+            none_regions = []
+            for y in ir.walk_nodes(b["body"]):
+                if y.get("k") == "if" and ir.unparen(y["c"]).get("k") == "letx" and ir.local_hid(ir.unparen(y["c"])["init"]) == h and \
+                        (ir.unparen(y["c"])["pat"].get("q") or "").endswith("Option::Some::{Ctor#0}") and "else" in y:
+                    none_regions.append(y["else"])
+                if y.get("k") == "if" and ir.contains(y["c"], lambda z: z.get("k") == "mcall" and z.get("name") == "is_none" and ir.local_hid(z["recv"]) == h):
+                    none_regions.append(y["then"])
+                if y.get("k") == "match" and ir.local_hid(y.get("e") or {}) == h:
+                    for a in y.get("arms", ()):
+                        if (a["pat"].get("q") or "").endswith("Option::None::{Ctor#0}"):
+                            none_regions.append(a["body"])
+            for y in ir.walk_nodes(b["body"]):
+                if y.get("k") in ("assign", "assignop") and ir.local_hid(y["l"]) == h:
+                    if not any(ir.contains(r, lambda z: z is y) for r in none_regions):
+                        bad.append("assignment at %s outside the branch where it is None" % ir.loc(y))
+                if y.get("k") == "mcall" and ir.local_hid(y["recv"]) == h and y.get("name") in ("replace", "insert", "take", "as_mut", "take_if", "zip", "map_or_else", "iter_mut", "as_deref_mut"):
+                    bad.append("%s(..) at %s" % (y["name"], ir.loc(y)))
+                if y.get("k") == "ref" and "mut" in (y.get("t") or "")[:5] and ir.local_hid(y["e"]) == h:
+                    bad.append("&mut borrow at %s" % ir.loc(y))
+            guard = any(y.get("k") == "if" and ir.diverges(y["then"]) and ir.cmp_norm(y["c"]) is not None and ir.cmp_norm(y["c"])[1] in ("!=", "==", "<", ">", "<=", ">=") and
+                        ir.contains(y["c"], lambda z: z.get("k") == "mcall" and z.get("name") == "len") for y in ir.walk_nodes(b["body"]))
+            if not bad and guard:
+                okm.append(h)
+            elif bad:
+                return "the remembered value `%s` in %s can be overwritten after it was set (%s): rows are compared with a moving value, not with the first row" % (memos[h], w["fn"].rsplit("::", 1)[-1], "; ".join(bad[:2]))
+        return None if okm else "no early-exit length comparison in %s" % w["fn"]
     if kind == "body_contains":
         b = P.fn(site.fn)
         okc = ir.contains(b["body"], lambda y: (y.get("q") or "").endswith(w["callee"]) or y.get("name") == w["callee"])
